@@ -78,7 +78,7 @@ func buildC06(tier string, seed int64) *Family {
 	}
 	for _, f := range forms {
 		insts = append(insts, &vm.Instance{ID: "nesting: " + f.prefix + "{" + f.unit + "}^n " + f.core + " {" + f.close + "}^n", Harness: "H_deepnest",
-			Params: map[string]string{"prefix": f.prefix, "unit": f.unit, "core": f.core, "close": f.close, "n": "4", "native_n": "30000"}})
+			Params: map[string]string{"prefix": f.prefix, "unit": f.unit, "core": f.core, "close": f.close, "n": "4", "native_n": "200000"}})
 	}
 	// (e) the guards bite
 	for _, in := range []string{"1", "(1)", "a[1]", "a/b", "count(a)", "a or b"} {
@@ -92,7 +92,7 @@ func buildC06(tier string, seed int64) *Family {
 		BudgetIsViolation: true,
 		Bounds: map[string]interface{}{
 			"free_string_length_L": L, "free_string_alphabet": "ASCII 0x01-0x7F (symbolic)", "templates": len(tpls), "namespace_maps": "nil, {}, {p:u, N:u}",
-			"nesting_depth_under_monitor": 4, "nesting_depth_native_replay": 30000, "guard_pre_state": "counter symbolic in [0, 2^40]",
+			"nesting_depth_under_monitor": 4, "nesting_depth_native_replay": 200000, "guard_pre_state": "counter symbolic in [0, 2^40]",
 		},
 		Rule: "instance = free-string family per namespace map, one template (valid or damaged) per instance, one nesting form, one guard pre-state harness; " +
 			"case = explored symbolic path over the input bytes / counter; non-trivial = the input reached Compile",
